@@ -114,6 +114,37 @@ func locationBody(rng *rand.Rand) []byte {
 	return b
 }
 
+// frame2019: the 2019 header (attribute bit 14, protocol version byte, 10-byte BCD phone).
+func frame2019(id uint16, phone string, serial uint16, body []byte) []byte {
+	attr := uint16(len(body)) | 0x4000
+	b := []byte{byte(id >> 8), byte(id), byte(attr >> 8), byte(attr), 1}
+	for len(phone) < 20 {
+		phone = "0" + phone
+	}
+	for i := 0; i < 10; i++ {
+		b = append(b, (phone[2*i]-'0')<<4|(phone[2*i+1]-'0'))
+	}
+	b = append(b, byte(serial>>8), byte(serial))
+	b = append(b, body...)
+	var x byte
+	for _, v := range b {
+		x ^= v
+	}
+	b = append(b, x)
+	out := []byte{0x7e}
+	for _, v := range b {
+		switch v {
+		case 0x7e:
+			out = append(out, 0x7d, 0x02)
+		case 0x7d:
+			out = append(out, 0x7d, 0x01)
+		default:
+			out = append(out, v)
+		}
+	}
+	return append(out, 0x7e)
+}
+
 func respType(cmd uint16) uint16 {
 	switch cmd {
 	case 0x8104:
@@ -128,7 +159,7 @@ func respType(cmd uint16) uint16 {
 	return 0x0001
 }
 
-var cmdIDs = []uint16{0x8104, 0x9003, 0x8801, 0x9205, 0x8103, 0x9101, 0x9102}
+var cmdIDs = []uint16{0x8104, 0x9003, 0x8801, 0x9205, 0x8103, 0x9101, 0x9102, 0x9206}
 
 func runScen(seed int64, nconn, ncallers, ms int) (st scenStats) {
 	s := scenServer()
@@ -179,6 +210,12 @@ func runScen(seed int64, nconn, ncallers, ms int) (st scenStats) {
 						atomic.AddInt64(&unanswered, 1)
 						continue // let the timer fire
 					}
+					if x >= 12 && x < 20 {
+						time.Sleep(time.Duration(2+rr.Intn(12)) * time.Millisecond) // a late answer: after the 1/3/10 ms timers
+					}
+					if x >= 20 && x < 24 {
+						send(respType(f.ID), RespBody(respType(f.ID), f.Serial+100, f.ID)) // an answer nobody waits for
+					}
 					send(respType(f.ID), RespBody(respType(f.ID), f.Serial, f.ID))
 					if x > 92 {
 						send(respType(f.ID), RespBody(respType(f.ID), f.Serial, f.ID)) // a duplicate answer
@@ -188,7 +225,43 @@ func runScen(seed int64, nconn, ncallers, ms int) (st scenStats) {
 			n := 1 + r.Intn(8)
 			frames := 0
 			for k := 0; k < n && time.Now().Before(deadline); k++ {
-				switch r.Intn(10) {
+				switch r.Intn(15) {
+				case 10: // registration (2013 layout): province, city, manufacturer, model, terminal id, colour, plate
+					b := make([]byte, 37)
+					for j := range b {
+						b[j] = byte('A' + r.Intn(26))
+					}
+					t.Send(0x0100, append(b, []byte("B12345")...))
+				case 11: // a sub-packaged multimedia upload (0x0801): the handler re-parses the completed message in the writer
+					b := append([]byte{0, 0, 0, byte(1 + r.Intn(200)), 0, 0, 0, 1}, locationBody(r)...)
+					for j := 0; j < 60+r.Intn(200); j++ {
+						b = append(b, byte(r.Intn(256)))
+					}
+					parts := 2 + r.Intn(3)
+					ser := t.NextSerial()
+					for j := 1; j < parts; j++ {
+						t.NextSerial()
+					}
+					for _, fr := range ConcFragFrames(0x0801, phones[i], ser, b, parts) {
+						t.SendRaw(fr)
+						if r.Intn(3) == 0 {
+							time.Sleep(time.Duration(r.Intn(400)) * time.Microsecond)
+						}
+					}
+				case 12: // one frame in two TCP segments
+					fr := TFrame(0x0200, phones[i], t.NextSerial(), locationBody(r))
+					cut := 1 + r.Intn(len(fr)-1)
+					t.SendRaw(fr[:cut])
+					time.Sleep(time.Duration(r.Intn(500)) * time.Microsecond)
+					t.SendRaw(fr[cut:])
+				case 13: // a body full of bytes that must be escaped
+					b := locationBody(r)
+					for j := 0; j < 20; j += 2 {
+						b[j], b[j+1] = 0x7e, 0x7d
+					}
+					t.Send(0x0200, b)
+				case 14: // a 2019-version frame (version flag, 10-byte phone)
+					t.SendRaw(frame2019(0x0200, phones[i], t.NextSerial(), locationBody(r)))
 				case 0, 1, 2:
 					t.Send(0x0002, nil)
 				case 3, 4:
@@ -326,4 +399,34 @@ func scenJSON(a []string) string {
 	st := runScen(seed, n(1), n(2), n(3))
 	b, _ := json.Marshal(st)
 	return string(b)
+}
+
+// ---------------------------------------------------------------- the C12/C13 scenario kinds under the detector
+// conc_writer.go (builder conc2, used read-only): GenW builds a command / teardown scenario of a named kind
+// (order, frag, reissue, flood-close, burst, late, dup, unknown, bad, never, mixed, attr, notmo, prejoin, wrap,
+// close-idle / -queued / -outstanding / -afterresp / -timer / -early, rst-outstanding, ...), RunW plays it on a
+// live server.  Their verdicts belong to C12/C13; here only the race detector judges.
+var slowKinds = map[string]bool{"stall": true, "stall-close": true, "default0": true}
+
+func runWKinds(seed int64, slow bool) string {
+	s := scenServer()
+	var wg sync.WaitGroup
+	var mu sync.Mutex
+	n, viol := 0, 0
+	for k, kind := range WKinds {
+		if slowKinds[kind] && !slow {
+			continue
+		}
+		wg.Add(1)
+		go func(k int, kind string) {
+			defer wg.Done()
+			h := RunW(s, GenW(kind, seed*100+int64(k)))
+			mu.Lock()
+			n++
+			viol += len(h.Viol)
+			mu.Unlock()
+		}(k, kind)
+	}
+	wg.Wait()
+	return "{\"WKinds\":" + strconv.Itoa(n) + ",\"WViol\":" + strconv.Itoa(viol) + "}"
 }
